@@ -46,9 +46,19 @@ func c16KeepSet(c *Ctx) {
 		n := 0
 		for _, f := range withClosures(fn) {
 			for _, rm := range calls(f, isRemoval) {
-				// the temp-file removal of the local store is decided by C16.tmp-files
-				if callee(rm) == "os.Remove" && hasOrigin(rm.Common().Args[0], func(o string) bool { return o == "param:path" }) {
-					continue
+				// the temp-file removal of the local store (behind the temp-prefix test) is decided by C16.tmp-files
+				if callee(rm) == "os.Remove" {
+					isTmp, _ := guarded(f, rm.(ssa.Instruction), func(iff *ssa.If) (bool, bool) {
+						if cl, ok := stripNot(iff.Cond).(*ssa.Call); ok && callee(cl) == "strings.HasPrefix" &&
+							onlyOrigins(cl.Call.Args[1], func(o string) bool { return o == "const:"+c.constVal("tmpChunkPrefix") }) {
+							_, truth, _ := cmpOf(iff.Cond)
+							return truth, !truth
+						}
+						return false, false
+					})
+					if isTmp {
+						continue
+					}
 				}
 				n++
 				k := fmt.Sprintf("%s:%s", fnKey(f), callee(rm))
